@@ -29,11 +29,18 @@ func init() { log.SetOutput(io.Discard) }
 type LCase struct {
 	Prog    *kgen.Program `json:"prog"`
 	GPUType string        `json:"gpu_type"`
+	// shape of the timing GPU (0 = shipped): few compute units pack many wavefronts into one register file
+	CUPerSA int `json:"cu_per_sa,omitempty"`
+	SAs     int `json:"shader_arrays,omitempty"`
 }
 
 func genLCase(t *rapid.T) LCase {
 	c := LCase{GPUType: rapid.SampledFrom([]string{"r9nano", "r9nano", "mi300a"}).Draw(t, "gputype")}
 	c.Prog = kgen.GenProgram(t, kgen.GenOpts{MaxItems: 2048, MaxOps: 14, LDS: true, Exit: true, Comm: rapid.Bool().Draw(t, "comm"), UniqueStores: true})
+	if rapid.Bool().Draw(t, "small") {
+		c.CUPerSA = rapid.SampledFrom([]int{1, 1, 2}).Draw(t, "cupersa")
+		c.SAs = rapid.SampledFrom([]int{1, 1, 2}).Draw(t, "sas")
+	}
 	return c
 }
 
@@ -59,7 +66,10 @@ func RunLCase(c LCase) (res stats.Result) {
 		res.Labels = append(res.Labels, "more-sgprs-than-vgprs")
 	}
 	res.NonTrivial = f.Waves >= 2 && exp.Exited > 0 && exp.Exited < exp.Waves
-	for _, spec := range []plat.Spec{{NumGPUs: 1}, {Timing: true, GPUType: c.GPUType, NumGPUs: 1}} {
+	if c.CUPerSA > 0 {
+		res.Labels = append(res.Labels, fmt.Sprintf("compute-units:%d", c.CUPerSA*c.SAs))
+	}
+	for _, spec := range []plat.Spec{{NumGPUs: 1}, {Timing: true, GPUType: c.GPUType, NumGPUs: 1, CUPerSA: c.CUPerSA, SAs: c.SAs}} {
 		mode := "emulation"
 		if spec.Timing {
 			mode = "timing (" + c.GPUType + ")"
@@ -94,7 +104,9 @@ func TestPropLifecycle(t *testing.T) {
 		r := RunLCase(c)
 		if r.Violation != "" {
 			c.Prog = kgen.Shrink(c.Prog, 100, func(q *kgen.Program) bool {
-				return RunLCase(LCase{Prog: q, GPUType: c.GPUType}).Violation != ""
+				cc := c
+				cc.Prog = q
+				return RunLCase(cc).Violation != ""
 			})
 			r = RunLCase(c)
 		}
